@@ -230,6 +230,7 @@ func (l *linkedBuffer) recycle() {
 			putBackBufferSlice(slice)
 		}
 	}
+	l.cleanPinnedList()
 	l.clean()
 	l.recycleMux.Unlock()
 }
